@@ -297,6 +297,19 @@ def load_known():
     return json.load(open(p))
 
 
+def replay_case(ctx):
+    """the `case` of the replay file given with --replay (None without one).  A check that knows how to re-run a
+    single case uses it as its whole population; the others re-run their full exploration (which contains the case)."""
+    if not getattr(ctx, "replay", None):
+        return None
+    try:
+        d = json.load(open(ctx.replay))
+    except Exception as e:     # noqa
+        raise RuntimeError(f"cannot read replay file {ctx.replay}: {e}")
+    os.environ["VERIF_NO_EVIDENCE"] = "1"
+    return d.get("case") or {}
+
+
 def write_replay(ctx, key, payload):
     d = os.path.join(VERIF, "replays")
     os.makedirs(d, exist_ok=True)
